@@ -115,6 +115,9 @@ class UpdateSM(Contract):
     params = []
     tags = {'C01', 'C02', 'C03', 'C05', 'C08', 'C15'}
     ghosts = {'g': 'int', 'e': 'int'}
+    # concrete small grids for the bounded re-check (at most 3 iterations per loop): with symbolic sizes the unrolled
+    # formula (~800 kB) is beyond the solvers' time limit and a refutation is found only by luck
+    bounded_cases = [(lambda nx_, nb_: (lambda cx: [cx.f(PS_NX) == nx_, cx.f(PS_NY) == nx_, cx.f(PS_NB) == nb_]))(a_, b_) for a_, b_ in ((2, 1), (2, 2), (3, 1))]
 
     def requires(self, cx):
         return [('valid', KM_valid(cx))]
